@@ -140,6 +140,16 @@ def match_fn_time(times, fn, unit='unit'):
     want = f'{unit}::{fn["mod"]}::' + '::'.join(parts)
     if want in times:
         return times[want]
+    # trait impl methods `<X as Trait<..>>::m`: Verus names them `<mod>::X::m` for a local self type X and
+    # `<mod>::impl&%N::m` for a foreign one
+    mt = re.match(r'^<\s*([\w:]+)[^>]*?\s+as\s+.*>::(\w+)$', fn['name'])
+    if mt:
+        cand = f'{unit}::{fn["mod"]}::{mt.group(1).split("::")[-1]}::{mt.group(2)}'
+        if cand in times:
+            return times[cand]
+        anon = [v for k, v in times.items() if k.startswith(f'{unit}::{fn["mod"]}::impl&%') and k.split('::')[-1] == mt.group(2)]
+        if len(anon) == 1:
+            return anon[0]
     # trait impl methods and inline modules: match by last segment
     last = want.split('::')[-1]
     hits = [v for k, v in times.items() if k.split('::')[-1] == last and fn['mod'].split('::')[0] in k]
